@@ -358,6 +358,28 @@ func (w *World) RunTask(t *Task) {
 	}
 }
 
+// RunPollTick runs exactly one tick of a poller that is parked at the start
+// of a tick (st.loadOffset): it stops when the poller is back waiting for the
+// ticker, or parked at the start of the next tick (a tick that became due
+// while the poller was stalled).
+func (w *World) RunPollTick(t *Task) {
+	first := true
+	for i := 0; ; i++ {
+		g := t.Parked()
+		if g == nil {
+			return
+		}
+		if !first && g.Point == "st.loadOffset" {
+			return
+		}
+		first = false
+		w.Grant(t)
+		if i > 200000 {
+			panic("RunPollTick: tick does not finish")
+		}
+	}
+}
+
 // Do runs fn as a task of (node, air) to completion in step-atomic mode.
 func (w *World) Do(name string, node, air int, fn func()) *Task {
 	t := w.Spawn(name, node, air, fn)
